@@ -15,10 +15,19 @@
 //!         Pipeline::generic(), Pipeline::avx2(), Pipeline::dispatch() under each forced arm
 //!         (sequence striped under the same arm) and score_rows_into over rows lo..hi (arms G, A).
 
+use lightmotif::abc::Alphabet;
 use lightmotif::abc::Dna;
+use lightmotif::abc::Protein;
+use lightmotif::abc::Symbol;
 use lightmotif::abc::Nucleotide;
 use lightmotif::dense::DenseMatrix;
+use lightmotif::num::MultipleOf;
+use lightmotif::num::PositiveLength;
+use lightmotif::num::U16;
 use lightmotif::num::U32;
+use lightmotif::pli::platform::Generic;
+use lightmotif::pli::platform::Sse2;
+use lightmotif::pli::Stripe;
 use lightmotif::pli::dispatch::Dispatch;
 use lightmotif::pli::verif::force_backend;
 use lightmotif::pli::Pipeline;
@@ -101,7 +110,7 @@ fn bits(x: f32) -> u32 {
 /// factor, offsets, offset of a DiscreteMatrix: the fields are private, but the derived
 /// Debug output prints them with Rust's shortest round-trip float formatting, which
 /// parses back to exactly the same f32.
-fn private_fields(dm: &DiscreteMatrix<Dna>) -> Option<(f32, Vec<f32>, f32)> {
+fn private_fields<A: Alphabet>(dm: &DiscreteMatrix<A>) -> Option<(f32, Vec<f32>, f32)> {
     let s = format!("{:?}", dm);
     let i = s.rfind(", factor: ")?;
     let rest = &s[i + 10..];
@@ -146,7 +155,154 @@ fn show_scores(r: Option<StripedScores<u8, U32>>) -> String {
     }
 }
 
+/// u8 score matrix with any number of columns: `rows:max_index:cells`
+fn show_scores_c<C: PositiveLength>(r: Option<StripedScores<u8, C>>) -> String {
+    match r {
+        None => "P".to_string(),
+        Some(sc) => {
+            let m = sc.matrix();
+            let mut cells: Vec<String> = vec![];
+            for r in 0..m.rows() {
+                for c in 0..C::USIZE {
+                    cells.push(m[r][c].to_string());
+                }
+            }
+            format!(
+                "{}:{}:{}",
+                m.rows(),
+                sc.max_index(),
+                if cells.is_empty() { "-".to_string() } else { cells.join(",") }
+            )
+        }
+    }
+}
+
+/// Pipeline::generic() and Pipeline::sse2() u8 scoring of a sequence striped (by the generic
+/// pipeline) into C columns and configured for the motif: (generic, sse2) score matrices
+fn layout_scores<A, C>(pssm: &ScoringMatrix<A>, dm: &DiscreteMatrix<A>, seq: &[A::Symbol]) -> (String, String)
+where
+    A: Alphabet,
+    C: PositiveLength + MultipleOf<U16>,
+{
+    let st: Option<StripedSequence<A, C>> = no_panic(|| {
+        let mut s: StripedSequence<A, C> = Pipeline::<A, Generic>::generic().stripe(seq);
+        s.configure(pssm);
+        s
+    });
+    match st {
+        None => ("SP".to_string(), "SP".to_string()),
+        Some(st) => {
+            let g = show_scores_c::<C>(no_panic(|| Pipeline::<A, Generic>::generic().score(dm, &st)));
+            let s = match Pipeline::<A, Sse2>::sse2() {
+                Err(_) => "U".to_string(),
+                Ok(p) => show_scores_c::<C>(no_panic(|| p.score(dm, &st))),
+            };
+            (g, s)
+        }
+    }
+}
+
+const PSYMS: &str = "ACDEFGHIKLMNPQRSTVWYX";
+
+fn parse_matrix_k(s: &str, k: usize) -> Vec<Vec<f32>> {
+    if s == "-" || s.is_empty() {
+        return vec![];
+    }
+    s.split('/')
+        .map(|r| {
+            let v: Vec<u32> = parse_list(r, ',');
+            (0..k).map(|i| f32::from_bits(v[i])).collect()
+        })
+        .collect()
+}
+
+/// Protein (K = 21 > 16: there is no SIMD u8 kernel and no u8 dispatcher for it; `to_discrete`,
+/// `scale`, `unscale`, both `score_position` are generic in the alphabet, u8 scoring runs through
+/// Pipeline::generic() and Pipeline::sse2(), whose Score<u8> impl is the trait default)
+fn run_case_protein(f: &std::collections::HashMap<String, String>) -> String {
+    let rows = parse_matrix_k(&f["mat"], 21);
+    let m = rows.len();
+    let seq: Vec<<Protein as Alphabet>::Symbol> = if f["seq"] == "-" {
+        vec![]
+    } else {
+        f["seq"].chars().map(|c| <Protein as Alphabet>::Symbol::from_char(c).unwrap_or_default()).collect()
+    };
+    let l = seq.len();
+    let thr: Vec<u32> = parse_list(&f["thr"], ',');
+    let bytes: Vec<u8> = parse_list(&f["bytes"], ',');
+    let pssm = ScoringMatrix::<Protein>::new(Background::uniform(), DenseMatrix::from_rows(rows.iter()));
+    let dm = match no_panic(|| pssm.to_discrete()) {
+        None => return "disc=P".to_string(),
+        Some(d) => d,
+    };
+    let mut out: Vec<String> = vec![];
+    match private_fields(&dm) {
+        None => return "disc=UNPARSED".to_string(),
+        Some((factor, offsets, offset)) => {
+            out.push(format!("f={}", bits(factor)));
+            out.push(format!("o={}", bits(offset)));
+            out.push(format!("os={}", join(&offsets.iter().map(|x| bits(*x)).collect::<Vec<_>>(), ",")));
+        }
+    }
+    out.push(format!("mn={}", no_panic(|| pssm.min_score()).map(|x| bits(x).to_string()).unwrap_or("P".into())));
+    out.push(format!("mx={}", no_panic(|| pssm.max_score()).map(|x| bits(x).to_string()).unwrap_or("P".into())));
+    {
+        let d = dm.matrix();
+        let mut rs = vec![];
+        for i in 0..d.rows() {
+            rs.push((0..21).map(|j| d[i][j].to_string()).collect::<Vec<_>>().join(","));
+        }
+        out.push(format!("d={}", join(&rs, "/")));
+    }
+    out.push(format!(
+        "sc={}",
+        join(&thr.iter().map(|t| no_panic(|| dm.scale(f32::from_bits(*t))).map(|b| b.to_string()).unwrap_or("P".into())).collect::<Vec<_>>(), ",")
+    ));
+    out.push(format!(
+        "un={}",
+        join(&bytes.iter().map(|b| no_panic(|| dm.unscale(*b)).map(|x| bits(x).to_string()).unwrap_or("P".into())).collect::<Vec<_>>(), ",")
+    ));
+    let striped: Option<StripedSequence<Protein, U32>> = no_panic(|| {
+        let mut s = EncodedSequence::<Protein>::new(seq.clone()).to_striped();
+        s.configure(&pssm);
+        s
+    });
+    let npos = if l >= m { l - m + 1 } else { 0 };
+    match &striped {
+        None => out.push("rs=SP ss=SP ds=SP".to_string()),
+        Some(st) => {
+            let mut rs = vec![];
+            let mut ss = vec![];
+            let mut ds = vec![];
+            for pos in 0..npos {
+                match no_panic(|| pssm.score_position(st, pos)) {
+                    None => {
+                        rs.push("P".to_string());
+                        ss.push("P".to_string());
+                    }
+                    Some(x) => {
+                        rs.push(bits(x).to_string());
+                        ss.push(no_panic(|| dm.scale(x)).map(|b| b.to_string()).unwrap_or("P".into()));
+                    }
+                }
+                ds.push(no_panic(|| dm.score_position(st, pos)).map(|b| b.to_string()).unwrap_or("P".into()));
+            }
+            out.push(format!("rs={}", join(&rs, ",")));
+            out.push(format!("ss={}", join(&ss, ",")));
+            out.push(format!("ds={}", join(&ds, ",")));
+        }
+    }
+    let (g, s) = layout_scores::<Protein, U32>(&pssm, &dm, &seq);
+    out.push(format!("gen={} sse={}", g, s));
+    let (g, s) = layout_scores::<Protein, U16>(&pssm, &dm, &seq);
+    out.push(format!("g16={} s16={}", g, s));
+    out.join(" ")
+}
+
 fn run_case(f: &std::collections::HashMap<String, String>) -> String {
+    if f.get("alpha").map(|s| s.as_str()) == Some("P") {
+        return run_case_protein(f);
+    }
     let rows = parse_matrix(&f["mat"]);
     let m = rows.len();
     let seq: Vec<Nucleotide> = if f["seq"] == "-" { vec![] } else { f["seq"].chars().map(sym_of).collect() };
@@ -268,6 +424,12 @@ fn run_case(f: &std::collections::HashMap<String, String>) -> String {
             }
         }
     }
+    // Pipeline::sse2() (Score<u8> = trait default) at C = 32, and the generic / SSE2 pipelines on a
+    // 16-column layout
+    let (_, s32) = layout_scores::<Dna, U32>(&pssm, &dm, &seq);
+    out.push(format!("sse={}", s32));
+    let (g16, s16) = layout_scores::<Dna, U16>(&pssm, &dm, &seq);
+    out.push(format!("g16={} s16={}", g16, s16));
     out.join(" ")
 }
 
@@ -673,6 +835,8 @@ fn case_line(rng: &mut Rng, id: &str, kind: &str, rows: &[[f32; 5]], seq: &str) 
         }
     }
     thr.push(finite_bits(rng));
+    // the extremes of the f32 range
+    thr.extend_from_slice(&[f32::MAX, f32::MIN, f32::MIN_POSITIVE, -f32::MIN_POSITIVE, f32::from_bits(1), f32::from_bits(0x8000_0001), 1.0e30, -1.0e30]);
     let mut bytes: Vec<u8> = vec![0, 1, 127, 254, 255];
     for _ in 0..3 {
         bytes.push(rng.below(256) as u8);
@@ -705,7 +869,230 @@ fn case_line(rng: &mut Rng, id: &str, kind: &str, rows: &[[f32; 5]], seq: &str) 
     )
 }
 
+/// conditioning predicate for any alphabet (informative only)
+fn conditioning_a<A: Alphabet>(rows: &[Vec<f32>]) -> &'static str {
+    let pssm = ScoringMatrix::<A>::new(Background::uniform(), DenseMatrix::from_rows(rows.iter()));
+    let factor = match no_panic(|| pssm.to_discrete()).and_then(|d| private_fields(&d)) {
+        None => return "na",
+        Some((f, _, _)) => f,
+    };
+    let mut a = 0f32;
+    for r in rows {
+        let mut mx = 0f32;
+        for x in r.iter() {
+            if x.is_finite() {
+                mx = mx.max(x.abs());
+            }
+        }
+        a += mx;
+    }
+    let bound = (8 * (rows.len() + 1)) as f32 * ulp(a);
+    if !factor.is_nan() && (factor == 0.0 || bound <= factor) {
+        "1"
+    } else {
+        "0"
+    }
+}
+
+/// a Protein case (K = 21): matrix from counts or arbitrary finite cells, sequence over the 20
+/// amino acids and X, thresholds as for DNA
+fn gen_protein_case(rng: &mut Rng, id: usize, tier: &str) -> String {
+    let maxw = if tier == "thorough" { 48 } else { 24 };
+    let m = match rng.below(10) {
+        0 => 1,
+        1 => 2,
+        _ => 1 + rng.below(maxw),
+    } as usize;
+    let psyms: Vec<char> = PSYMS.chars().collect();
+    let mut rows: Vec<Vec<f32>> = vec![];
+    let kind;
+    match rng.below(10) {
+        0..=3 => {
+            kind = "pcounts";
+            let n = 5 + rng.below(80) as u32;
+            let mut counts: Vec<Vec<u32>> = vec![];
+            for _ in 0..m {
+                let mut r = vec![0u32; 21];
+                let fav = rng.below(20) as usize;
+                for _ in 0..n {
+                    let s = if rng.chance(1, 2) { fav } else { rng.below(20) as usize };
+                    r[s] += 1;
+                }
+                counts.push(r);
+            }
+            let pseudo = *rng.pick(&[0.1f32, 0.25, 1.0, 0.01]);
+            let pssm = no_panic(|| {
+                CountMatrix::<Protein>::new(DenseMatrix::from_rows(counts.iter()))
+                    .unwrap()
+                    .to_freq(pseudo)
+                    .to_scoring(None)
+            });
+            match pssm {
+                Some(p) => {
+                    for i in 0..m {
+                        rows.push((0..21).map(|j| p.matrix()[i][j]).collect());
+                    }
+                }
+                None => {
+                    for _ in 0..m {
+                        let mut r: Vec<f32> = (0..20).map(|j| j as f32 * 0.25 - 2.0).collect();
+                        r.push(f32::NEG_INFINITY);
+                        rows.push(r);
+                    }
+                }
+            }
+        }
+        4..=7 => {
+            kind = "pfinite";
+            let (lo, hi) = *rng.pick(&[(-12.0, 4.0), (-4.0, 4.0), (0.0, 50.0)]);
+            let w = rng.below(4);
+            for _ in 0..m {
+                let mut r: Vec<f32> = (0..20).map(|_| rand_f32(rng, lo, hi)).collect();
+                let rmin = r.iter().cloned().fold(f32::INFINITY, f32::min);
+                let rmax = r.iter().cloned().fold(f32::NEG_INFINITY, f32::max);
+                r.push(match w {
+                    0 | 1 => f32::NEG_INFINITY,
+                    2 => rmin - (rmax - rmin) * 0.3,
+                    _ => rmin + (rmax - rmin) * 0.4,
+                });
+                rows.push(r);
+            }
+        }
+        8 => {
+            kind = "pties";
+            for _ in 0..m {
+                let mut r: Vec<f32> = (0..20).map(|_| rng.range(-4, 4) as f32 * 0.5).collect();
+                r.push(0.0);
+                rows.push(r);
+            }
+        }
+        _ => {
+            kind = "pconstant";
+            let v = rand_f32(rng, -3.0, 3.0);
+            for _ in 0..m {
+                let mut r = vec![v; 20];
+                r.push(f32::NEG_INFINITY);
+                rows.push(r);
+            }
+        }
+    }
+    let argmax = |r: &Vec<f32>| (0..20).fold(0, |b, j| if r[j] > r[b] { j } else { b });
+    let cons: Vec<usize> = rows.iter().map(argmax).collect();
+    let maxl = if tier == "thorough" { 300 } else { 120 };
+    let target = match rng.below(10) {
+        0 => 0,
+        1 => m.saturating_sub(1),
+        2 => m,
+        3..=5 => m + rng.below(20) as usize,
+        _ => rng.below(maxl) as usize,
+    };
+    let mut sq: Vec<usize> = vec![];
+    while sq.len() < target {
+        match rng.below(6) {
+            0 | 1 => sq.extend(cons.iter()),
+            2 => {
+                let mut w = cons.clone();
+                let i = rng.below(m as u64) as usize;
+                w[i] = 20;
+                sq.extend(w);
+            }
+            3 => sq.push(20),
+            _ => {
+                for _ in 0..1 + rng.below(16) {
+                    sq.push(rng.below(20) as usize);
+                }
+            }
+        }
+    }
+    sq.truncate(target);
+    let seq: String = if sq.is_empty() { "-".to_string() } else { sq.iter().map(|&i| psyms[i]).collect() };
+    // thresholds
+    let mut lo = 0f32;
+    let mut hi = 0f32;
+    for r in rows.iter() {
+        lo += r[..20].iter().cloned().fold(f32::INFINITY, f32::min);
+        hi += r[..20].iter().cloned().fold(f32::NEG_INFINITY, f32::max);
+    }
+    let range = if hi > lo && (hi - lo).is_finite() { hi - lo } else { 1.0 };
+    let mut thr: Vec<f32> = vec![
+        f32::NEG_INFINITY, f32::INFINITY, f32::NAN, 0.0, -0.0, lo, hi, lo - 1.0, hi + 1.0,
+        next_down(lo), next_up(lo), next_down(hi), next_up(hi),
+        lo - range * 0.01, lo - range * 1.5, hi + range * 0.01, f32::MAX, f32::MIN, f32::from_bits(1),
+    ];
+    for _ in 0..4 {
+        thr.push((lo as f64 + (hi as f64 - lo as f64) * (rand_unit(rng) * 1.2 - 0.1)) as f32);
+    }
+    if m > 0 && sq.len() >= m {
+        let npos = sq.len() - m + 1;
+        for _ in 0..4 {
+            let p = rng.below(npos as u64) as usize;
+            let mut sc = 0f32;
+            for (j, r) in rows.iter().enumerate() {
+                sc += r[sq[p + j]];
+            }
+            thr.push(sc);
+            if sc.is_finite() {
+                thr.push(next_up(sc));
+                thr.push(next_down(sc));
+            }
+        }
+    }
+    let mut bytes: Vec<u8> = vec![0, 1, 127, 254, 255];
+    for _ in 0..3 {
+        bytes.push(rng.below(256) as u8);
+    }
+    format!(
+        "{} kind={} alpha=P wc={} mat={} seq={} thr={} bytes={} sub=0:0",
+        id,
+        kind,
+        conditioning_a::<Protein>(&rows),
+        rows.iter().map(|r| r.iter().map(|x| x.to_bits().to_string()).collect::<Vec<_>>().join(",")).collect::<Vec<_>>().join("/"),
+        seq,
+        thr.iter().map(|x| bits(*x).to_string()).collect::<Vec<_>>().join(","),
+        bytes.iter().map(|x| x.to_string()).collect::<Vec<_>>().join(","),
+    )
+}
+
+/// a wide DNA motif (100 .. 2000 rows) on a sequence only a few positions longer: the generic path
+/// and the saturation of long sums, cheap to replay
+fn gen_wide_case(rng: &mut Rng, id: usize, tier: &str) -> String {
+    let maxw = if tier == "thorough" { 2000 } else { 700 };
+    let m = (100 + rng.below(maxw - 99)) as usize;
+    let flat = rng.chance(1, 3);
+    let mut rows: Vec<[f32; 5]> = vec![];
+    for i in 0..m {
+        let mut r = [0f32; 5];
+        for j in 0..4 {
+            r[j] = if flat && i % 7 != 0 { rand_f32(rng, 0.0, 0.05) } else { rand_f32(rng, -8.0, 2.0) };
+        }
+        r[4] = if rng.chance(1, 2) { f32::NEG_INFINITY } else { -9.0 };
+        rows.push(r);
+    }
+    let cons: Vec<usize> = rows.iter().map(|r| arg_by(r, true)).collect();
+    let mut sq: Vec<usize> = vec![];
+    for _ in 0..rng.below(4) {
+        sq.push(rng.below(4) as usize);
+    }
+    sq.extend(cons.iter());
+    for _ in 0..rng.below(6) {
+        sq.push(rng.below(5) as usize);
+    }
+    if rng.chance(1, 4) {
+        let i = rng.below(sq.len() as u64) as usize;
+        sq[i] = rng.below(5) as usize;
+    }
+    let seq: String = sq.iter().map(|&i| SYMS[i]).collect();
+    case_line(rng, &id.to_string(), "wide", &rows, &seq)
+}
+
 fn gen_case(rng: &mut Rng, id: usize, tier: &str) -> String {
+    match rng.below(100) {
+        0..=11 => return gen_protein_case(rng, id, tier),
+        // wide motifs: 3% of the quick tier (M <= 700), 1% of the thorough tier (M <= 2000)
+        12 => return gen_wide_case(rng, id, tier),
+        13..=14 if tier != "thorough" => return gen_wide_case(rng, id, tier),
+        _ => {}
+    }
     let (kind, rows) = gen_matrix(rng, tier);
     let seq = gen_seq(rng, &rows, tier);
     case_line(rng, &id.to_string(), &kind, &rows, &seq)
